@@ -92,6 +92,31 @@ var cleanPrefixes = []string{"/keep/{id}/", "/keep2/", "/keep/{id}/y/", "/k/{a}/
 
 var methodSets = [][]string{{"GET"}, {"POST"}, {"GET", "POST"}, nil, {"DELETE"}}
 
+// noops are writer calls that by contract change nothing, aimed at the never-touched routes: removals naming only
+// methods that are ignored, unknown or not registered there, removals of patterns that do not exist, and registrations
+// that must be refused. "Routes that are never touched keep being served with their own handler" covers them.
+var noops = []struct {
+	name    string
+	refused bool // the call must panic with an error value
+	call    func(r *mux.Router[*rig.H], h *rig.H)
+}{
+	{"Remove(/keep/{id}, get)", false, func(r *mux.Router[*rig.H], h *rig.H) { r.Remove("/keep/{id}", "get") }},
+	{"Remove(/keep/{id}, BOGUS, \"\")", false, func(r *mux.Router[*rig.H], h *rig.H) { r.Remove("/keep/{id}", "BOGUS", "") }},
+	{"Remove(/keep2, OPTIONS, HEAD)", false, func(r *mux.Router[*rig.H], h *rig.H) { r.Remove("/keep2", "OPTIONS", "HEAD") }},
+	{"Remove(/k/{a}/{b:\\d+}, PATCH)", false, func(r *mux.Router[*rig.H], h *rig.H) { r.Remove(`/k/{a}/{b:\d+}`, "PATCH") }},
+	{"Remove(/keep/{id}, PUT, PATCH)", false, func(r *mux.Router[*rig.H], h *rig.H) { r.Remove("/keep/{id}", "PUT", "PATCH") }},
+	{"Remove(/nowhere/{id})", false, func(r *mux.Router[*rig.H], h *rig.H) { r.Remove("/nowhere/{id}") }},
+	{"Remove(/keep)", false, func(r *mux.Router[*rig.H], h *rig.H) { r.Remove("/keep") }},
+	{"Remove(/keep/)", false, func(r *mux.Router[*rig.H], h *rig.H) { r.Remove("/keep/") }},
+	{"Prefix(/nowhere).Clean()", false, func(r *mux.Router[*rig.H], h *rig.H) { r.Prefix("/nowhere").Clean() }},
+	{"Prefix(/keep/{id}).Remove(\"\", BOGUS)", false, func(r *mux.Router[*rig.H], h *rig.H) { r.Prefix("/keep/{id}").Remove("", "BOGUS") }},
+	{"Resource(/keep2).Remove(PATCH)", false, func(r *mux.Router[*rig.H], h *rig.H) { r.Resource("/keep2").Remove("PATCH") }},
+	{"Handle(/keep/{id}, GET) again", true, func(r *mux.Router[*rig.H], h *rig.H) { r.Handle("/keep/{id}", h, nil, "GET") }},
+	{"Handle(/keep2, PUT, HEAD)", true, func(r *mux.Router[*rig.H], h *rig.H) { r.Handle("/keep2", h, nil, "PUT", "HEAD") }},
+	{"Handle(/keep/{other}, PUT)", true, func(r *mux.Router[*rig.H], h *rig.H) { r.Handle("/keep/{other}", h, nil, "PUT") }},
+	{"Handle(/k/{a}/{b:\\d+}, PUT, PUT)", true, func(r *mux.Router[*rig.H], h *rig.H) { r.Handle(`/k/{a}/{b:\d+}`, h, nil, "PUT", "PUT") }},
+}
+
 func gen(t *rapid.T) Program {
 	var p Program
 	p.Procs = rapid.SampledFrom([]int{2, 4, 16}).Draw(t, "procs")
@@ -148,6 +173,9 @@ func gen(t *rapid.T) Program {
 				}
 			}
 			switch {
+			case rapid.IntRange(0, 11).Draw(t, "noop") == 0:
+				op.Kind = "noop"
+				op.P = rapid.IntRange(0, len(noops)-1).Draw(t, "noopP")
 			case k < 5:
 				op.Kind = "handle"
 				op.Methods = rapid.SampledFrom(methodSets).Draw(t, "wms")
@@ -327,12 +355,17 @@ func runProgram(p Program) (map[string]float64, *rig.Violation) {
 						r.Remove(toggled[op.P].pattern, op.Methods...)
 					case "cleanPrefix":
 						r.Prefix(cleanPrefixes[op.P]).Clean()
+					case "noop":
+						noops[op.P].call(r, newH("noop"))
 					}
 				})
 				writersActive.Add(-1)
 				wops.Add(1)
+				if op.Kind == "noop" && noops[op.P].refused != panicked {
+					fail(rig.Violf("noop-verdict", "writer %d: %s: panicked=%v (%v), must be refused=%v", wi, noops[op.P].name, panicked, v, noops[op.P].refused))
+				}
 				if panicked {
-					if _, isErr := v.(error); !isErr || op.Kind != "handle" {
+					if _, isErr := v.(error); !isErr || (op.Kind != "handle" && !(op.Kind == "noop" && noops[op.P].refused)) {
 						fail(rig.Violf("writer-fault", "writer %d op %+v panicked: %v", wi, op, v))
 					} else if _, rt := v.(runtime.Error); rt {
 						fail(rig.Violf("writer-fault", "writer %d op %+v panicked: %v", wi, op, v))
@@ -583,6 +616,17 @@ func runProgram(p Program) (map[string]float64, *rig.Violation) {
 				case !rig.EqualSets(o.NodeMethods, listed):
 					fail(rig.Violf("routes-dispatch-disagree", "after all goroutines finished Routes()[%q]=%v but the node serving %s %s reports methods %v", tg.pattern, listed, m, tg.path, o.NodeMethods))
 				}
+			}
+		}
+		// the never-touched routes: still listed with their full method sets and served by their own handlers
+		for _, u := range untouched {
+			if !rig.EqualSets(routes[u.pattern], allow(u.methods)) {
+				fail(rig.Violf("untouched-route-changed", "after all goroutines finished Routes()[%q]=%v, want %v (no operation of the program touches it)", u.pattern, routes[u.pattern], allow(u.methods)))
+			}
+			path, want := u.path("7")
+			o := rig.Serve(front, rig.Req{Method: u.methods[0], Path: path})
+			if o.Panicked || o.BaseKind != "route" || o.BaseID != uid[u.pattern] || !rig.EqualParams(o.Params, want) {
+				fail(rig.Violf("untouched-route-changed", "after all goroutines finished %s %s: kind=%s handler=%s params=%v panicked=%v, want handler %s with %v", u.methods[0], path, o.BaseKind, o.BaseID, o.Params, o.Panicked, uid[u.pattern], want))
 			}
 		}
 		for _, tg := range toggled {
